@@ -51,6 +51,14 @@ def run(ctx):
             ops += [{"op": "build", "sent": {"text": c["text"], "bnd": c["bnd"], "ntags": 1,
                                              "tags": [[[88]] for _ in c["text"]]}}, {"op": "filter", "f": f}]
         send.append({"id": 2 * 10 ** 6 + len(send), "kind": "history", "ops": ops, "opts": {"writers": True, "reparse": False}})
+    # call histories on one object (updates in the three formats, several predictors, fill_tags at any point, hand-set labels):
+    # the scratch state the unchecked code indexes (per-position automaton states, tag tables) must fit the current text
+    from props import _lifecycle as L
+    lc, preds = L.generate(ctx, 3, 1)
+    risky = [c for c in lc if any(o["op"] == "fill_tags" for o in c["ops"][:-14])]
+    rest = [c for c in lc if not any(o["op"] == "fill_tags" for o in c["ops"][:-14])]
+    for c in risky[:: (1 if len(risky) < 2500 or not ctx.quick else 2)] + rest[:: max(1, len(rest) // (300 if ctx.quick else 20000))]:
+        send.append({"id": 3 * 10 ** 6 + len(send), "kind": "history", "preds": preds, "ops": c["ops"], "opts": {"writers": True, "reparse": False}})
     o_dbg = vlib.run_replay(dbg, send, "C18-debug")
     o_rel = vlib.run_replay(rel, send, "C18-release")
     o_asan = None
